@@ -93,7 +93,7 @@ class Ctx:
         while lines:
             rounds += 1
             if rounds > 50:
-                raise Broken("harness keeps crashing")
+                raise Broken("harness keeps crashing: " + json.dumps([x for x in events if x.get("e") == "Fault"][-3:])[:1500])
             script = "\n".join(lines) + "\n"
             e = dict(os.environ)
             e.update(env or {})
@@ -167,6 +167,13 @@ class Ctx:
         self.tlc_runs.append({k: res.get(k) for k in ("module", "cfg", "rc", "generated", "distinct", "violated", "wall_s")})
         return res
 
+    def validate_many(self, chunks, module, cfg, tag, timeout=2400, par=8):
+        """validate several traces in parallel TLC processes; returns the list of verdicts"""
+        from concurrent.futures import ThreadPoolExecutor
+        with ThreadPoolExecutor(max_workers=par) as ex:
+            futs = [ex.submit(self.validate_trace, ch, module, cfg, "%s%d" % (tag, i), timeout) for i, ch in enumerate(chunks)]
+            return [f.result() for f in futs]
+
     def validate_trace(self, events, module="TraceXCrypt.tla", cfg="TraceXCrypt.cfg", tag="t", timeout=1200):
         """Write events as NDJSON, run the trace specification, return its verdict dict."""
         tr = os.path.join(self.dir, "%s.ndjson" % tag)
@@ -178,7 +185,9 @@ class Ctx:
             os.unlink(vf)
         res = self.tlc(module, cfg, env={"XCV_TRACE": tr, "XCV_VERDICT": vf}, workers=1, timeout=timeout)
         if not os.path.exists(vf):
-            raise Broken("trace validation produced no verdict (%s):\n%s" % (module, res["out"][-3000:]))
+            o = res["out"]
+            i = o.find("Error:")
+            raise Broken("trace validation produced no verdict (%s):\n%s\n...\n%s" % (module, o[max(0, i - 200):i + 1500], o[-1500:]))
         v = json.load(open(vf))
         if v["consumed"] != v["lines"]:
             raise Broken("trace not fully consumed: %s of %s" % (v["consumed"], v["lines"]))
@@ -210,6 +219,7 @@ def annotate(events):
         ev.setdefault("hkeep", 0)
         ev.setdefault("dprev", 0)
         ev.setdefault("sig", 0)
+        ev.setdefault("gs", 0)
         key = (ev["ph"], ev["pnull"], tuple(ev["s"]), ev["snull"])
         succ = ev["ret"] == "out" and ev["outk"] == "str" and ev["out"] and ev["out"][0] != 42
         ev["kprev"] = seen.get(key, 0)
@@ -220,6 +230,37 @@ def annotate(events):
             if o in byout and byout[o][1] != key:
                 ev["dprev"] = byout[o][0]
             byout.setdefault(o, (i, key))
+    return events
+
+
+GS = {"gensalt_rn", "gensalt_r", "xgensalt_r", "gensalt", "xgensalt", "gensalt_ra"}
+
+
+def annotate_gs(events):
+    """index annotations for TraceGensalt (1-based): gprev, sprev, s192, fprev, fresh"""
+    first = {}
+    lastsize = {}
+    full = {}
+    for i, ev in enumerate(events, 1):
+        if ev.get("e") not in GS:
+            continue
+        for k in ("gprev", "sprev", "s192", "fprev", "fresh"):
+            ev.setdefault(k, 0)
+        key = (tuple(ev["prefix"]), ev["prefixnull"], tuple(ev["cd"]), tuple(ev["rb"]), ev["rbnull"], ev["nrbytes"])
+        if ev["osize"] >= 192:
+            if not ev["gprev"]:
+                ev["gprev"] = first.get(key, 0)
+            first.setdefault(key, i)
+        if ev["e"] in ("gensalt_rn", "gensalt_r", "xgensalt_r"):
+            if key in lastsize and events[lastsize[key] - 1]["osize"] < ev["osize"]:
+                ev["sprev"] = lastsize[key]
+            if ev["osize"] == 192:
+                full.setdefault(key, i)
+            elif key in full:
+                ev["s192"] = full[key]
+            if ev["osize"] != 192 or key not in lastsize:
+                if ev["osize"] != 192:
+                    lastsize[key] = i
     return events
 
 
